@@ -69,8 +69,19 @@ UnDamages == {"b0", "blast"}
 Mutations == {"none", "underlay_other", "underlay_byte", "overlay_other", "overlay_byte",
               "sig_byte", "sig_len", "sig_otherkey", "sig_twin", "net"}
 
-BaseRec(d) == LET o == Ov(d.k, d.n) u == Un(d.u)
-              IN [u |-> u, o |-> o, s |-> Sig(d.k, Msg(u, o, d.n))]
+\* Network ids are 64-bit numbers; TLC integers are 32-bit, so an id is carried as the term <<base, variant>>:
+\* base names one of the universe's ids, variant is "same" or how it differs from it ("hi32": only in the upper
+\* 32 bits, "b<k>": only in bit k of the 64).  The driver concretises the term.
+NetTerm(n, variant) == <<"net", n, variant>>
+NetDamages == {"hi32", "b0", "b31", "b32", "b63"}
+
+\* the network the honest record was made for, and the network it is checked on
+SignNet(d)  == NetTerm(d.n, "same")
+CheckNet(d) == IF d.mut = "net" THEN (IF d.how = "other" THEN NetTerm(d.vn, "same") ELSE NetTerm(d.n, d.how))
+               ELSE NetTerm(d.vn, "same")
+
+BaseRec(d) == LET o == Ov(d.k, SignNet(d)) u == Un(d.u)
+              IN [u |-> u, o |-> o, s |-> Sig(d.k, Msg(u, o, SignNet(d)))]
 
 RecOf(d) ==
   LET b == BaseRec(d) IN
@@ -78,22 +89,21 @@ RecOf(d) ==
     [] d.mut = "net"            -> b                                   \* same bytes, checked on another network
     [] d.mut = "underlay_other" -> [b EXCEPT !.u = Un(d.mu)]
     [] d.mut = "underlay_byte"  -> [b EXCEPT !.u = UnDamaged(d.u, d.how)]
-    [] d.mut = "overlay_other"  -> [b EXCEPT !.o = Ov(d.mk, d.n)]
-    [] d.mut = "overlay_byte"   -> [b EXCEPT !.o = OvDamaged(d.k, d.n, d.how)]
+    [] d.mut = "overlay_other"  -> [b EXCEPT !.o = Ov(d.mk, SignNet(d))]
+    [] d.mut = "overlay_byte"   -> [b EXCEPT !.o = OvDamaged(d.k, SignNet(d), d.how)]
     [] d.mut = "sig_byte"       -> [b EXCEPT !.s = SigDamaged(d.k, b.s.m, d.how)]
     [] d.mut = "sig_len"        -> [b EXCEPT !.s = SigDamaged(d.k, b.s.m, d.how)]
     [] d.mut = "sig_otherkey"   -> [b EXCEPT !.s = Sig(d.mk, b.s.m)]
     [] d.mut = "sig_twin"       -> [b EXCEPT !.s = SigTwin(d.k, b.s.m)]
 
-\* network the record is checked on
-CheckNet(d) == d.vn
 
 \* the descriptors over one honest record b = [k, u, n] (SigPos, OvDam, UnDam: the damage positions used)
-DescriptorsOf(b, SigPos, OvDam, UnDam) ==
+DescriptorsOf(b, SigPos, OvDam, UnDam, NetDam) ==
   LET mk(mut, vn, mk_, mu_, how) ==
          [k |-> b.k, u |-> b.u, n |-> b.n, vn |-> vn, mut |-> mut, mk |-> mk_, mu |-> mu_, how |-> how]
   IN    {mk("none", b.n, 0, 0, "none")}
-   \cup {mk("net", vn, 0, 0, "none") : vn \in NetIds \ {b.n}}
+   \cup {mk("net", vn, 0, 0, "other") : vn \in NetIds \ {b.n}}     \* checked on another network of the universe
+   \cup {mk("net", b.n, 0, 0, h) : h \in NetDam}                   \* ... on an id that differs in the high half / in one bit
    \cup {mk("underlay_other", b.n, 0, mu, "none") : mu \in UnderlayIds \ {b.u}}
    \cup {mk("underlay_byte", b.n, 0, 0, h) : h \in UnDam}
    \cup {mk("overlay_other", b.n, k2, 0, "none") : k2 \in KeyIds \ {b.k}}
@@ -104,6 +114,6 @@ DescriptorsOf(b, SigPos, OvDam, UnDam) ==
    \cup {mk("sig_twin", b.n, 0, 0, "none")}
 
 \* all descriptors of the universe
-Descriptors(SigPos, OvDam, UnDam) ==
-  UNION {DescriptorsOf([k |-> k, u |-> u, n |-> n], SigPos, OvDam, UnDam) : k \in KeyIds, u \in UnderlayIds, n \in NetIds}
+Descriptors(SigPos, OvDam, UnDam, NetDam) ==
+  UNION {DescriptorsOf([k |-> k, u |-> u, n |-> n], SigPos, OvDam, UnDam, NetDam) : k \in KeyIds, u \in UnderlayIds, n \in NetIds}
 =============================================================================
